@@ -81,6 +81,20 @@ CHECKS["C18"] = dict(
     note="Trusted: Coq kernel (no axioms), ocaml/C01 driver, harness (dbwrap fault injector, cfsim). Fault = the call returns an error and has no effect. Create/import/remove under faults are enumerated, not proved; three consecutive faults in the last removal round still need a restart (stated as a _partial theorem); swallowed-read sites in the pending-transaction code are not reached. Four defects repaired (f6a5978, 23ccdb6, 33294fa).",
     technique="Coq proof (operation = commit entirely or leave the store unchanged; retry equivalence) + storage-fault enumeration on the real wallet with twin comparison",
 )
+CHECKS["C09"] = dict(
+    category="proof",
+    text="Coq model of the pending side of the store (unmined transactions, unmined inputs with per-spender lists, unmined credits, pending game rows, the handler's volatile mempool set) wrapped around the C01 ledger, with 15 theorems: an accepted unconfirmed transaction is readable and flags every wallet coin it spends, flagged coins are never eligible, receiving changes nothing mined, settling equals mining unseen and removes the pending record, a confirmed conflict purges the conflicted transaction with all registered descendants (fuel bound proved), rolled-back transactions return readable with all inputs registered, and refutation witnesses for three repaired defects. Tied to the code by replaying generated histories (chains of pending transactions, duplicates, conflicts, confirms, reorgs, restarts) on the real WalletManager and the extracted model with all pending-side buckets compared key by key.",
+    design_ref="DESIGN.md section 5, C09",
+    note="Trusted: Coq kernel (no axioms), ExtrOcamlBasic + driver, harness (sim/hist/pending.go), hooks VerifReceiveTx and the read-only bucket dumps; node mempool empty; the two p2p look-ups of proccessReceivedTx and the 1024-block expiry are not covered. Known findings stale-pending:foreign-input, stale-pending:unseen-parent; three defects repaired (626fe73, 0bc4560, and the Rollback record).",
+    technique="Coq proof (per-operation invariants of the pending set, fuel bound for conflict removal) + extracted-model differential correspondence with bucket-level dumps",
+)
+CHECKS["C10"] = dict(
+    category="proof",
+    text="Coq theorems over the same model: the reported staking/binding rows are exactly the wallet's deposit credits, once each, with amount, address/target, frozen period and height, withdrawn iff spent (relative to the row invariant, proved for connects); deposits are excluded from selection; withdrawable iff consensus's sequence lock admits the spend at the next height (staking: height+frozen+1; new binding: 2^32-2 blocks; coinbase deposits keep both locks); built withdrawals carry the least sequence consensus requires. Tied to the code by histories with staking/old+new binding deposits, withdrawals, pending versions and reorgs replayed on the real wallet and the model, and ~1900 built withdrawal transactions per quick run compared.",
+    design_ref="DESIGN.md section 5, C10",
+    note="Trusted: as C09. The row invariant across Rollback is covered by the bucket-dump correspondence, not proved; the consensus side is a transcription of mass-core's calcSequenceLock/SequenceLockActive; legal frozen periods (>= 61440) are not mined, small periods are written directly into scripts. Coinbase deposit maturity repaired (91b07dd).",
+    technique="Coq proof (row exactness, sequence-lock equivalence) + extracted-model differential correspondence incl. built withdrawal transactions",
+)
 NOT_YET = "not claimed yet in this round: model and correspondence under construction (see DESIGN.md section 9 for the order)"
 
 def main():
